@@ -127,6 +127,7 @@ class Ctx:
             return hit[0]
         v = z3.Const(fresh(name), term.sort())
         self.ghost[key] = (v, term)
+        self.ghost.setdefault("defined_consts", []).append((name, v))
         self.add_pc(v == term)
         return v
 
